@@ -94,6 +94,10 @@ def judge(stims: list[dict], obs: list[dict], run=None, label: str = "", sketch_
         tid = f"s{i}"
         idx[tid] = i
         lt.append(L.libs_trace(tid, o["decls"], o))
+        if sorted(o.get("collected", o["libs"])) != sorted(o["libs"]):
+            # the list the transpiler computes and hands to write_project is a request of its own (platformio.ini de-duplicates
+            # what it is given): when the two differ, both are held to the specification
+            lt.append(L.libs_trace(tid + "c", o["decls"], dict(o, libs=o["collected"])))
         if sketch_sel is None or i in sketch_sel:
             st.append(L.sketch_trace(tid, o))
     if not lt:
@@ -129,6 +133,8 @@ def run_stratum(stims: list[dict], run, label: str, probes: list[bool] | None = 
         s, o = stims[i], obs[i]
         run.count(_stim_key(s), nontrivial=bool(s["decls"]))
         v, w = lv[tid], sv.get(tid, {"ok": True, "l": 0, "clause": "", "skipped": True})
+        if v["ok"] and not lv.get(tid + "c", v)["ok"]:
+            v = lv[tid + "c"]            # the computed list breaks the specification where the ini does not
         hit = [k for k in (v.get("known") or [])]
         if hit and not (probes and probes[i]):
             raise MachineryError(f"C14: known-deviation predicate matched outside the probe stratum: {_stim_key(s)}")
